@@ -78,13 +78,74 @@ func (p pop) model() imaging.Op {
 	return o
 }
 
-func render(ops []pop) []byte {
+func render(ops []pop) []byte { return renderWith(ops, nil) }
+
+// renderWith writes the operators; local maps a form's global name (Fm3) to the
+// name it has in the resource dictionary of the scope the operators belong to.
+func renderWith(ops []pop, local map[string]string) []byte {
 	var sb strings.Builder
 	for _, p := range ops {
+		if p.name == "Do" && local[p.ref] != "" {
+			p.ref = local[p.ref]
+		}
 		sb.WriteString(p.String())
 		sb.WriteByte('\n')
 	}
 	return []byte(sb.String())
+}
+
+// localNames gives the forms of one scope (the page, or a form's children) their
+// names in that scope's /XObject dictionary: the global name, or — when the
+// program uses local names — X1, X2 … by position, so that the same name means
+// different forms at different levels.
+func (p *program) localNames(children []string) map[string]string {
+	m := map[string]string{}
+	// the page's forms are X1, X2 …; the children of the i-th page-level form start
+	// at X(i+1): its first child has the name the page gives its next form
+	off := 0
+	if p.local && len(children) > 0 {
+		for i, t := range p.topForms() {
+			for _, ch := range p.forms[t].children {
+				if ch == children[0] {
+					off = i + 1
+				}
+			}
+		}
+	}
+	for i, c := range children {
+		m[c] = c
+		if p.local {
+			m[c] = fmt.Sprintf("X%d", off+i+1)
+		}
+	}
+	return m
+}
+
+// topForms lists the forms invoked by the page itself, in order of creation.
+func (p *program) topForms() []string {
+	child := map[string]bool{}
+	for _, f := range p.forms {
+		for _, c := range f.children {
+			child[c] = true
+		}
+	}
+	var top []string
+	for n := 1; n <= len(p.forms); n++ {
+		if name := fmt.Sprintf("Fm%d", n); !child[name] {
+			top = append(top, name)
+		}
+	}
+	return top
+}
+
+// pageData / formData: the content streams as written into the file.
+func (p *program) pageData() []byte { return renderWith(p.ops, p.localNames(p.topForms())) }
+func (p *program) formData(f *form) []byte {
+	local := p.localNames(f.children)
+	if !f.damaged {
+		return renderWith(f.ops, local)
+	}
+	return append(append([]byte("q\n2 0 0 2 30 40 cm\n"), renderWith(f.ops, local)...), []byte("BT (cut off")...)
 }
 
 func modelOps(ops []pop) []imaging.Op {
@@ -124,6 +185,7 @@ func (f *form) data() []byte {
 type program struct {
 	ops      []pop
 	forms    map[string]*form
+	local    bool // resource dictionaries name the forms X1, X2 … per scope instead of globally
 	features map[string]bool
 	matKinds map[string]bool
 }
@@ -407,6 +469,7 @@ func genProgram(r *rand.Rand, idx int) *program {
 		g.quotes = idx%4 == 1
 		g.forms = idx%4 == 3
 		g.damagedForms = idx%16 == 7
+		p.local = idx%8 == 3
 		g.lines = idx%2 == 0
 		// a font must be selected before text is shown (§9.3.1: Tf has no
 		// initial value); select one at page level so that every later
@@ -417,6 +480,16 @@ func genProgram(r *rand.Rand, idx int) *program {
 		}
 		// the property quantifies over programs of up to 40 operators
 		if len(p.ops) <= 40 {
+			if p.local {
+				// a clash: a top-level form invoked after an earlier one whose children
+				// carry the same local names
+				top := p.topForms()
+				for i := range top {
+					if i+1 < len(top) && len(p.forms[top[i]].children) > 0 {
+						p.features["form-local-name-clash"] = true
+					}
+				}
+			}
 			return p
 		}
 		budget = budget * 2 / 3
@@ -425,7 +498,7 @@ func genProgram(r *rand.Rand, idx int) *program {
 
 func (p *program) describe() string {
 	var sb strings.Builder
-	sb.Write(render(p.ops))
+	sb.Write(p.pageData())
 	for i := 1; i <= len(p.forms); i++ {
 		f := p.forms[fmt.Sprintf("Fm%d", i)]
 		fmt.Fprintf(&sb, "-- %s matrix=%v\n", f.name, f.hasMatrix)
@@ -435,7 +508,7 @@ func (p *program) describe() string {
 			}
 			sb.WriteByte('\n')
 		}
-		sb.Write(f.data())
+		sb.Write(p.formData(f))
 	}
 	return sb.String()
 }
